@@ -84,6 +84,11 @@ type subPlan struct {
 	nAbmf     int
 	nReserve  int
 	nRating   int
+	// engine fault, unit clients (C17): the peer records the request it received and answers with a given message
+	cannedSUA *cdt.ServiceUsageResponse
+	cannedCCA *cdt.AccountDebitResponse
+	gotSUR    *cdt.ServiceUsageRequest
+	gotCCR    *cdt.AccountDebitRequest
 	held      map[string][]*hold // by peer: answers read by the client and not yet dispatched
 	staleRuns int                // held answers dispatched while a later request was waiting
 }
@@ -230,11 +235,23 @@ func startPeers(rfPort, abmfPort int, pemF, keyF string) error {
 	rmux := sm.New(settings)
 	rmux.HandleFunc("SUR", func(c diam.Conn, m *diam.Message) {
 		var sur cdt.ServiceUsageRequest
-		if m.Unmarshal(&sur) != nil || sur.SubscriptionId == nil || sur.ServiceRating == nil {
+		if m.Unmarshal(&sur) != nil || sur.SubscriptionId == nil {
 			return
 		}
 		p := planOf(string(sur.SubscriptionId.SubscriptionIdData))
 		if p == nil {
+			return
+		}
+		if p.cannedSUA != nil {
+			p.mu.Lock()
+			p.gotSUR = &sur
+			p.mu.Unlock()
+			a := m.Answer(diam.Success)
+			_ = a.Marshal(p.cannedSUA)
+			_, _ = a.WriteTo(c)
+			return
+		}
+		if sur.ServiceRating == nil {
 			return
 		}
 		ex := &exchange{peer: "rating", role: "cost", recv: time.Now(), action: Action{Kind: "prompt"}}
@@ -271,11 +288,23 @@ func startPeers(rfPort, abmfPort int, pemF, keyF string) error {
 	amux := sm.New(settings)
 	amux.HandleFunc("CCR", func(c diam.Conn, m *diam.Message) {
 		var ccr cdt.AccountDebitRequest
-		if m.Unmarshal(&ccr) != nil || ccr.SubscriptionId == nil || ccr.MultipleServicesCreditControl == nil {
+		if m.Unmarshal(&ccr) != nil || ccr.SubscriptionId == nil {
 			return
 		}
 		p := planOf(string(ccr.SubscriptionId.SubscriptionIdData))
 		if p == nil {
+			return
+		}
+		if p.cannedCCA != nil {
+			p.mu.Lock()
+			p.gotCCR = &ccr
+			p.mu.Unlock()
+			a := m.Answer(diam.Success)
+			_ = a.Marshal(p.cannedCCA)
+			_, _ = a.WriteTo(c)
+			return
+		}
+		if ccr.MultipleServicesCreditControl == nil {
 			return
 		}
 		ex := &exchange{peer: "abmf", role: "reserve", recv: time.Now(), action: Action{Kind: "prompt"}}
